@@ -24,6 +24,9 @@ META = {
     "C09": {"ref": "DESIGN.md §8 C09",
             "text": "Cleanliness per pooled type and field: harnesses are generated from pool.go on every run; the released node's content is symbolic (type-directed fill), the pool model hands the very node back, and the solver discharges structural equality with a freshly constructed node. Aliasing: an engine-side write monitor freezes every cell reachable from values the caller holds; any later write by the library (another parse, a release of another tree, a pooled tokenizer) is the violation; histories are symbolic choices.",
             "note": "Native confirmation replays the same history and compares deep snapshots of the held values. Pool model: LIFO."},
+    "C14": {"ref": "DESIGN.md §8 C14",
+            "text": "Per (node type, field): harnesses generated from the current source populate one field at a time with fresh probe nodes (symbolic choice of type and field, type-directed fill) and assert that every node pointer reachable through the tree's own fields is visited by ast.Inspect. Also: left-deep chains of symbolic height, and every tree the parser accepts in the token-soup runs (reachable set = visited set).",
+            "note": "Core AST types only; bounded fill depth; identity-based (pointer nodes)."},
     "C11": {"ref": "DESIGN.md §8 C11",
             "text": "The moment of cancellation is a symbolic variable: a counting context turns done at poll k (k and the error kind symbolic). On every path the solver discharges: no tree, errors.Is(err, ctx.Err()) through the real wrap chain, at most 2 further polls, the uncancelled run equals the context-free run, and the parser is left without residue (ctx nil, depth restored).",
             "note": "Inputs: fixed nested statements that put every wrapping site on some path, plus short symbolic continuations."},
